@@ -5,6 +5,7 @@ import AranyaV.Proofs.StoreGraph
 import AranyaV.Proofs.ConvBfs
 import AranyaV.Proofs.StoreGraphBuild
 import AranyaV.Proofs.ConvBfsCounts
+import AranyaV.Proofs.BraidMechLazy
 /-!
 # C03 (part b) — the recorded-LCA walk returns a dominator (`lca_dominates`)
 
@@ -63,6 +64,16 @@ on C21's queue model, `push_duplicate` / `peek` / `pop_duplicates`):
                           `Model.BraidMech.initCounts (graphOf s attr) region (max_cut ≤ cut) (id of x) =
                           some k` (a command above the cut with `k ≥ 2` children in the braided
                           region), for a duplicate-free antichain of heads.
+* `bfs_level_reveals_initCounts`, `advanceSeq_reveals` — the same for the BFS as the code runs it, lazily:
+                          after ANY sequence of `advance_to` calls (from `should_continue`, targets in any
+                          order) the BFS is "advanced to" the least target `m`, and for every command with
+                          `max_cut ≥ m` its entry is exactly its `initCounts` entry;
+* `implBraidLazy_eq` (Proofs/BraidMechLazy) / `implBraid_lazy_eq_ref_built` — the mechanism model with the
+                          BFS interleaved (`Model.BraidMechLazy`: the map starts EMPTY, `should_continue`
+                          first advances the BFS to the location's max cut, the entries revealed are those
+                          of the real BFS `revBfs`) returns what the model started from the completed BFS
+                          returns, hence — on every built store, with the computed LCA — the reference
+                          braid.  No completed-BFS hypothesis and no LCA hypothesis are left.
 (The block store receiving the entries is `Model.ConvMap`, Props/C02.)  Together: real LCA walk →
 dominator; real BFS → the model's counts; block store → abstract map; count-down mechanism → reference
 braid.
@@ -308,6 +319,144 @@ theorem initCounts_eq_arrivals {s : Store} (hwf : WF s) (hmd : MergeDistinct s)
         (belowOf (idLoc s) C) (locId s x) = some k ↔ (x, k) ∈ b.entries :=
   initCounts_eq_entries hwf hmd attr hnd hv hanti C hrun hx k
 
+/-! ## the BFS as the code runs it: lazily, inside `should_continue` -/
+
+/-- **`bfs_level_reveals_initCounts`.** A BFS advanced to level `m` (by whatever calls) holds, for
+every command at or above `m`, exactly its entry of the completed convergence map. -/
+theorem bfs_level_reveals_initCounts {s : Store} (hwf : WF s) (hmd : MergeDistinct s)
+    (attr : Loc → AranyaV.Gen.Priority) {hs : List Loc} (hnd : hs.Nodup)
+    (hv : ∀ h ∈ hs, s.valid h = true) (hanti : ∀ a ∈ hs, ∀ b ∈ hs, a ≠ b → ¬ AncS s a b)
+    (C : Loc) {m : Nat} {b : Bfs} (hadv : Adv s C.mc hs m b)
+    {x : Loc} (hx : s.valid x = true) (hxm : m ≤ x.mc) (k : Nat) :
+    AranyaV.Braid.initCounts (graphOf s attr) (Spec.ancSelfAll (graphOf s attr) (hs.map (locId s)))
+        (belowOf (idLoc s) C) (locId s x) = some k ↔ (x, k) ∈ b.entries :=
+  initCounts_eq_entries_level hwf hmd attr hnd hv hanti C hadv hx hxm k
+
+/-- **`advanceSeq_reveals`.** After a first call `advance_to(t)` and any further calls `ts` (in any
+order) the BFS is advanced to the least target. -/
+theorem advanceSeq_reveals {s : Store} (hwf : WF s) {cut : Nat} {heads : List Loc}
+    (hv : ∀ h ∈ heads, s.valid h = true) {fuel : Nat} (t : Nat) (ts : List Nat) {b : Bfs}
+    (h : advanceSeq s cut fuel (t :: ts) (Bfs.init heads) = .ok b) :
+    Adv s cut heads (ts.foldl min t) b := by
+  simp only [advanceSeq] at h
+  cases h1 : advanceTo s cut t fuel (Bfs.init heads) with
+  | error e => rw [h1] at h; cases h
+  | ok b1 =>
+    rw [h1] at h
+    exact advanceSeq_adv hwf.priors ts t b1 b (advanceTo_init_adv hwf.priors hv h1) h
+
+/-- the entry recorded for a location -/
+def entryOf (es : List (Loc × Nat)) (x : Loc) : Option Nat := (es.find? (fun e => e.1 == x)).map (·.2)
+
+theorem entryOf_eq_some {es : List (Loc × Nat)} {x : Loc} {k : Nat}
+    (huniq : ∀ k k', (x, k) ∈ es → (x, k') ∈ es → k = k') : entryOf es x = some k ↔ (x, k) ∈ es := by
+  unfold entryOf
+  constructor
+  · intro h
+    cases hf : es.find? (fun e => e.1 == x) with
+    | none => rw [hf] at h; cases h
+    | some e =>
+      rw [hf] at h
+      simp only [Option.map_some, Option.some.injEq] at h
+      have h1 := List.mem_of_find?_eq_some hf
+      have h2 : e.1 = x := by simpa using List.find?_some hf
+      obtain ⟨e1, e2⟩ := e
+      simp only at h h2
+      subst h; subst h2; exact h1
+  · intro h
+    cases hf : es.find? (fun e => e.1 == x) with
+    | none =>
+      have := List.find?_eq_none.mp hf (x, k) h
+      simp at this
+    | some e =>
+      have h1 := List.mem_of_find?_eq_some hf
+      have h2 : e.1 = x := by simpa using List.find?_some hf
+      obtain ⟨e1, e2⟩ := e
+      simp only at h2
+      subst h2
+      simp only [Option.map_some, Option.some.injEq]
+      exact huniq e2 k h1 h
+
+/-- max cut of a command id of `graphOf` -/
+def mcOfId (s : Store) (i : Nat) : Nat :=
+  match idLoc s i with
+  | some x => x.mc
+  | none => 0
+
+/-- what the real BFS, advanced to `t`, holds for the command with id `i` -/
+def revBfs (s : Store) (cut : Nat) (hs : List Loc) (t i : Nat) : Option Nat :=
+  match advanceTo s cut t (s.allLocs.length + 1) (Bfs.init hs), idLoc s i with
+  | .ok b, some x => entryOf b.entries x
+  | _, _ => none
+
+/-- the real BFS satisfies the hypothesis of `implBraidLazy_eq` -/
+theorem revBfs_spec {s : Store} (hwf : WF s) (hmd : MergeDistinct s)
+    (attr : Loc → AranyaV.Gen.Priority) {hs : List Loc} (hnd : hs.Nodup)
+    (hv : ∀ h ∈ hs, s.valid h = true) (hanti : ∀ a ∈ hs, ∀ b ∈ hs, a ≠ b → ¬ AncS s a b) (C : Loc)
+    (t q : Nat) (htq : t ≤ mcOfId s q) :
+    revBfs s C.mc hs t q =
+      AranyaV.Braid.initCounts (graphOf s attr) (Spec.ancSelfAll (graphOf s attr) (hs.map (locId s)))
+        (belowOf (idLoc s) C) q := by
+  have hp := hwf.priors
+  obtain ⟨b, hb⟩ := convBfs_total hwf C.mc t hv
+  have hadv := advanceTo_init_adv hp hv hb
+  unfold revBfs
+  rw [hb]
+  cases hq : idLoc s q with
+  | none =>
+    -- not a command id: outside every region
+    simp only
+    symm
+    unfold AranyaV.Braid.initCounts
+    have hnot : (Spec.ancSelfAll (graphOf s attr) (hs.map (locId s))).contains q = false := by
+      rw [Bool.eq_false_iff]
+      intro hc
+      have hm : q ∈ Spec.ancSelfAll (graphOf s attr) (hs.map (locId s)) := by simpa using hc
+      rw [Spec.mem_ancSelfAll (graphOf_wf hp hmd attr)] at hm
+      obtain ⟨j, hj, hr⟩ := hm
+      rw [List.mem_map] at hj
+      obtain ⟨h, hh, rfl⟩ := hj
+      obtain ⟨a, hav, rfl⟩ := (abs_graphOf hp attr).down q h (hv h hh) hr
+      rw [idLoc_locId hav] at hq; cases hq
+    rw [hnot]
+    simp
+  | some x =>
+    simp only
+    obtain ⟨rfl, hxv⟩ := locId_of_idLoc hq
+    have hxm : t ≤ x.mc := by simpa [mcOfId, hq] using htq
+    obtain ⟨_, _, hent⟩ := adv_spec hp hadv
+    have huniq : ∀ k k', (x, k) ∈ b.entries → (x, k') ∈ b.entries → k = k' := by
+      intro k k' h1 h2
+      rw [((hent x k).mp h1).2.2.1, ((hent x k').mp h2).2.2.1]
+    cases hi : AranyaV.Braid.initCounts (graphOf s attr)
+        (Spec.ancSelfAll (graphOf s attr) (hs.map (locId s))) (belowOf (idLoc s) C) (locId s x) with
+    | some k =>
+      exact (entryOf_eq_some huniq).mpr
+        ((bfs_level_reveals_initCounts hwf hmd attr hnd hv hanti C hadv hxv hxm k).mp hi)
+    | none =>
+      cases he : entryOf b.entries x with
+      | none => rfl
+      | some k =>
+        have := (bfs_level_reveals_initCounts hwf hmd attr hnd hv hanti C hadv hxv hxm k).mpr
+          ((entryOf_eq_some huniq).mp he)
+        rw [hi] at this; cases this
+
+/-- **`implBraid_lazy_eq_ref_built`.** End to end: on every store built by writes, with the LCA the
+code computes, the real cut-off and same-segment tests, and the convergence map filled **lazily by the
+real BFS inside `should_continue`**, the mechanism returns the reference braid. -/
+theorem implBraid_lazy_eq_ref_built {s : Store} (hb : Built s) (hmd : MergeDistinct s)
+    (attr : Loc → AranyaV.Gen.Priority) {hs : List Loc} {C : Loc}
+    (h2 : 2 ≤ hs.length) (hnd : hs.Nodup) (hv : ∀ h ∈ hs, s.valid h = true)
+    (hanti : ∀ a ∈ hs, ∀ b ∈ hs, a ≠ b → ¬ AncS s a b)
+    (hC : lastCommonAncestor s hs = .ok C) :
+    AranyaV.Braid.implBraidLazy (graphOf s attr) (hs.map (locId s)) (belowOf (idLoc s) C) (sameSegOf (idLoc s))
+        (revBfs s C.mc hs) (mcOfId s) =
+      AranyaV.Braid.liftRes (Spec.refBraid (graphOf s attr) (hs.map (locId s))) := by
+  obtain ⟨hwf, _⟩ := built_invariants hb
+  rw [AranyaV.Braid.implBraidLazy_eq (hs.map (locId s)) _ _ (mcOfId s) (revBfs s C.mc hs)
+    (revBfs_spec hwf hmd attr hnd hv hanti C)]
+  exact implBraid_eq_ref_built hb hmd attr h2 hnd hv hanti hC
+
 /-! ## non-vacuity: a store with a nested merge, built by `write`s
 
 ```
@@ -424,6 +573,17 @@ example : ∃ C, lastCommonAncestor b5 [⟨5, 3⟩, ⟨5, 4⟩] = .ok C ∧
   refine ⟨⟨2, 0⟩, by rfl, ?_⟩
   refine implBraid_eq_ref_built b5_built (mergeDistinct_of_check (by decide)) _ (by decide) (by decide)
     (by decide) ?_ (by rfl)
+  intro a ha b hb hab
+  rw [← ancSB_iff b5_priors]
+  revert a b
+  decide
+
+/-- the lazy-BFS theorem applies to `b5` as well: nothing is assumed about the LCA or the BFS -/
+example : AranyaV.Braid.implBraidLazy (graphOf b5 (fun _ => .basic 0)) ([⟨5, 3⟩, ⟨5, 4⟩].map (locId b5))
+      (belowOf (idLoc b5) ⟨2, 0⟩) (sameSegOf (idLoc b5)) (revBfs b5 2 [⟨5, 3⟩, ⟨5, 4⟩]) (mcOfId b5) =
+    AranyaV.Braid.liftRes (Spec.refBraid (graphOf b5 (fun _ => .basic 0)) ([⟨5, 3⟩, ⟨5, 4⟩].map (locId b5))) := by
+  refine implBraid_lazy_eq_ref_built (C := ⟨2, 0⟩) b5_built (mergeDistinct_of_check (by decide)) _ (by decide)
+    (by decide) (by decide) ?_ (by rfl)
   intro a ha b hb hab
   rw [← ancSB_iff b5_priors]
   revert a b
